@@ -20,6 +20,7 @@ from .. import drive, env, httpfault, sched, world
 
 SPELLING = False  # this monitor controls the spelling of path arguments itself
 VERBOSITY = False  # stdout of verify -dh -co is parsed / runs must be identical
+TECHNIQUE = 'runtime monitoring: real-stack fault sweep against a loopback fault server, deterministic line-level two-thread schedule enumeration via sys.monitoring, two-threshold termination bound'
 LEVEL = "exploration"
 RULE = (
     "sweep case = (command incl. failing ones and --help/--version, tool ascmhl|ascmhl-debug) x server behaviour (immediate / "
